@@ -278,6 +278,58 @@ pub fn run(ctx: &mut Ctx) {
     }
 
     // 3. the setters on the full (N, n) lattice
+    // 3. through the Builder: counts sweeping across every power of two (a chain of 12 terms whose linked record
+    // counts are P-5 .. P+6 out of N = P+6 records), for the three kinds with different P per kind, and through
+    // the decoder - the setter lattice covers (N, n) arithmetic, this covers the ontology-level computation
+    {
+        let powers: Vec<u32> = if thorough { vec![16, 32, 64, 128, 256, 512, 1024, 2048, 4096, 8192] } else { vec![32, 256, 1024, 2048] };
+        ctx.space("counts-across-powers-of-two", &format!("P in {powers:?}: chain of 12 terms below HP:118, term j carries P-5+j .. records of a kind (genes: P, OMIM: 2P or P/2, ORPHA: P+-3), N = P+6 (resp.); Builder and decoder; every term's information content = -ln(n/N), monotone along the chain"));
+        for (pi, &p) in powers.iter().enumerate() {
+            if !ctx.take() {
+                continue;
+            }
+            ctx.state();
+            ctx.nontrivial();
+            let mut f = Facts::default();
+            f.version = (2024, 2, 29);
+            f.terms.push(Facts::term(1, "All"));
+            f.terms.push(Facts::term(118, "Phenotypic abnormality"));
+            f.edges.push((118, 1));
+            // chain: 200 is the top (child of 118) ... 211 the bottom; records on the bottom reach every term above
+            for j in 0..12u32 {
+                f.terms.push(Facts::term(200 + j, &format!("C{j}")));
+                f.edges.push((200 + j, if j == 0 { 118 } else { 200 + j - 1 }));
+            }
+            // per kind: base power and total; term 200+j (j = 0 top) must end up with total - j records
+            let layouts = [(crate::model::Kind::Gene, p), (crate::model::Kind::Omim, if pi % 2 == 0 { 2 * p } else { (p / 2).max(8) }), (crate::model::Kind::Orpha, if pi % 2 == 0 { p + 3 } else { p.saturating_sub(3).max(8) })];
+            for (kind, base) in layouts {
+                let total = base + 6;
+                // record r (0-based) sits on chain position min(r, 11) counted from the top... records 0..total-12 on the bottom term
+                for rcd in 0..total {
+                    let depth = if rcd < total - 11 { 11 } else { total - 1 - rcd }; // the last 11 records sit one level higher each
+                    f.anns.push(Facts::ann(kind, rcd, "R", Some(200 + depth)));
+                }
+            }
+            let r = RefOnt::derive(&f);
+            ctx.transitions(2 * f.n_steps());
+            let case = || json!({"power_of_two": p, "layout": "chain 200..211 below HP:118; per kind N = base + 6 records, the bottom term carries N - 11 of them, each term above one more"});
+            match drive::build(&f, Mode::Defaults) {
+                Ok(ont) => {
+                    if let Some(obs) = drive::check_against_model(ctx, &ont, &r, Mode::Defaults, "builder", &case) {
+                        strict(ctx, &obs, &r, &case);
+                    }
+                }
+                Err(e) => ctx.violation("Builder", "[builder] construction fails on valid facts", json!({"case": case(), "observed": e})),
+            }
+            match drive::from_bytes(&crate::encode::encode(&f, &crate::encode::EncOpts::v(3))) {
+                Ok(Ok(ont)) => {
+                    drive::check_against_model(ctx, &ont, &r, Mode::Defaults, "binary v3", &case);
+                }
+                other => ctx.violation("Ontology::from_bytes", "[binary v3] rejects a file laid out as documented", json!({"case": case(), "observed": format!("{:?}", other.map(|r| r.map(|_| ())))})),
+            }
+            ctx.sample(|| json!({"power_of_two": p, "records": {"gene": layouts[0].1 + 6, "omim": layouts[1].1 + 6, "orpha": layouts[2].1 + 6}}));
+        }
+    }
     lattice(ctx, if thorough { 4096 } else { 1024 });
     let _ = Kind::Gene;
 }
